@@ -179,9 +179,9 @@ def gen_field(rng: random.Random, name: str, kind: str | None = None) -> FSpec:
 
 
 def resolved(levels: list[list[FSpec]]) -> list[FSpec]:
-    """the harness's own view of the user fields of the most derived class: used only to keep the
-    generated source *valid* (dataclass default-ordering rule) and to build instances; the order
-    of the result is not used for any expectation"""
+    """the harness's own view of the fields of a class given the replay of declarations (`Hier.expand`):
+    used only to keep the generated source *valid* (dataclass default-ordering rule) and to build
+    instances; the order of the result is not used for any expectation"""
     d: dict[str, FSpec] = {}
     for lvl in levels:
         for f in lvl:
@@ -189,35 +189,104 @@ def resolved(levels: list[list[FSpec]]) -> list[FSpec]:
     return list(d.values())
 
 
-def _legalise(levels: list[list[FSpec]]) -> None:
-    """dataclasses: a positional init field without default must not follow one with a default.
-    Offenders of the newest level become kw_only (which lifts the restriction)."""
-    for upto in range(1, len(levels) + 1):
-        seen_default = False
-        for f in resolved(levels[:upto]):
-            if not f.init or f.kw_only:
-                continue
-            if f.default is not None:
-                seen_default = True
-            elif seen_default:
-                # make the most derived declaration of that name kw_only
-                f.kw_only = True
+# what ASTNode itself declares (node.py): replayed wherever ASTNode occurs in a reversed MRO
+BASE_LEVEL = [
+    FSpec("id", "p", "str", "base", compare=False, init=False, kw_only=False, default="_UNSET_ID"),
+    FSpec("content_id", "p", "str", "base", compare=False, init=False, kw_only=False, default="_UNSET_ID"),
+    FSpec("origin", "p", "Origin", "base", compare=True, init=True, kw_only=True, default="NO_ORIGIN",
+          default_val=NO_ORIGIN),
+]
+BASE_NAMES = ("id", "content_id", "origin")
+AST = "ASTNode"
+MIXINS = ("MixPlain", "MixHelper")
+
+
+class MixPlain:
+    """a mix-in without fields"""
+
+    def describe(self) -> str:
+        return type(self).__name__
+
+
+class MixHelper:
+    """a mix-in without fields that defines an unrelated attribute and a property"""
+
+    marker = 7
+
+    @property
+    def n_children(self) -> int:
+        return len(self.children)  # type: ignore[attr-defined]
+
+
+def _c3_merge(seqs: list[list]) -> list:
+    out = []
+    seqs = [list(s) for s in seqs if s]
+    while seqs:
+        for s in seqs:
+            h = s[0]
+            if not any(h in t[1:] for t in seqs):
+                break
+        else:
+            raise TypeError("inconsistent MRO")
+        out.append(h)
+        seqs = [[x for x in t if x != h] for t in seqs]
+        seqs = [t for t in seqs if t]
+    return out
 
 
 @dataclass
 class Hier:
+    """a family of node classes: class k has own declarations `levels[k]` and the bases `bases[k]`
+    (indices of earlier classes, mix-in names, "ASTNode"); a chain has bases[k] = [k-1]"""
+
     uid: int
     levels: list[list[FSpec]]
     postponed: bool               # `from __future__ import annotations` in the generated module
+    bases: list[list] = field(default_factory=list)
+    shape: str = "chain"
     classes: list[type] = field(default_factory=list)
     module: Any = None
+
+    def __post_init__(self):
+        if not self.bases:
+            self.bases = [[AST] if k == 0 else [k - 1] for k in range(len(self.levels))]
 
     def cname(self, k: int) -> str:
         return f"C12h{self.uid}L{k}"
 
+    # ---- linearisation (C3, on the specification data)
+    def mro(self, k) -> list:
+        if not isinstance(k, int):
+            return [k]
+        bs = self.bases[k]
+        return [k] + _c3_merge([self.mro(b) for b in bs] + [list(bs)])
+
+    def node_ancestors(self, k: int) -> list[int]:
+        return [x for x in self.mro(k)[1:] if isinstance(x, int)]
+
+    def expand(self, k) -> list[list[FSpec]]:
+        """the declarations `dataclasses` writes into the field dict of class k, as a flat replay:
+        for every class of the reversed MRO its own replay, then the own declarations (writing a
+        base's resolved fields = replaying its declarations: Props/C12MI.lean `resolve_replay`)"""
+        if k == AST:
+            return [BASE_LEVEL]
+        if not isinstance(k, int):
+            return []                      # a mix-in without fields
+        out: list[list[FSpec]] = []
+        for b in reversed(self.mro(k)[1:]):
+            out += self.expand(b)
+        return out + [self.levels[k]]
+
+    def all_fields(self, k: int) -> list[FSpec]:
+        return resolved(self.expand(k))
+
+    def user_fields(self, k: int) -> list[FSpec]:
+        """fields other than id / content_id and the *inherited* origin"""
+        return [f for f in self.all_fields(k) if f.vclass != "base"]
+
     def source_level(self, k: int) -> str:
-        base = "ASTNode" if k == 0 else self.cname(k - 1)
-        out = [f"@dataclass(frozen=True)", f"class {self.cname(k)}({base}):"]
+        bases = ", ".join(self.cname(b) if isinstance(b, int) else b for b in self.bases[k])
+        out = [f"@dataclass(frozen=True)", f"class {self.cname(k)}({bases}):"]
         if not self.levels[k]:
             out.append("    pass")
         for f in self.levels[k]:
@@ -244,7 +313,7 @@ class Hier:
                     "from typing import Literal, Optional, Tuple, Union\n"
                     "from pyoak.node import ASTNode\n"
                     "from pyoak.origin import NO_ORIGIN, Origin\n"
-                    "from zoo_c12 import Hue, KBase, KA, KB, KLen0, KBoolF\n")
+                    "from zoo_c12 import Hue, KBase, KA, KB, KLen0, KBoolF, MixPlain, MixHelper\n")
 
     def open_module(self) -> None:
         name = f"c12gen_{self.uid}"
@@ -263,12 +332,12 @@ class Hier:
         return self.header() + "".join(self.source_level(k) for k in range(len(self.levels)))
 
     def copy(self, uid: int) -> "Hier":
-        return Hier(uid, self.levels, self.postponed)
+        return Hier(uid, self.levels, self.postponed, self.bases, self.shape)
 
     # ---- description for the model (from the specification data only)
     def sexp_class(self, k: int):
         return [A("cls")] + [[A("lvl")] + [[f.name, A(f.kind), f.compare, f.init, f.kw_only] for f in lvl]
-                             for lvl in self.levels[: k + 1]]
+                             for lvl in self.expand(k)]
 
 
 _counter = [0]
@@ -279,50 +348,162 @@ def next_uid() -> int:
     return _counter[0]
 
 
-def gen_hier(rng: random.Random, max_fields: int = 6) -> Hier:
-    nlev = rng.choice([1, 2, 2, 3, 3])
-    levels: list[list[FSpec]] = []
-    used: list[str] = []
-    for k in range(nlev):
-        n = rng.choice([0, 1, 2, 3, 4, 5, 6][: max_fields + 1])
-        lvl: list[FSpec] = []
-        names_here: set[str] = set()
-        for _ in range(n):
-            if used and rng.random() < 0.3 and k > 0:
-                name = rng.choice(used)          # override of an inherited field
+def _legalise(h: Hier) -> None:
+    """dataclasses: a positional init field without default must not follow one with a default, in the
+    resolved field order of *every* class of the family.  An offending declaration becomes kw_only
+    (which lifts the restriction, for the class that declares it and for all that inherit it)."""
+    changed = True
+    while changed:
+        changed = False
+        for k in range(len(h.levels)):
+            seen_default = False
+            for f in h.all_fields(k):
+                if not f.init or f.kw_only:
+                    continue
+                if f.default is not None:
+                    seen_default = True
+                elif seen_default:
+                    f.kw_only = True
+                    changed = True
+
+
+def _own_fields(rng: random.Random, h: Hier, k: int, n: int) -> list[FSpec]:
+    """n declarations for class k (whose bases are already in `h`): new names and overrides"""
+    anc = h.node_ancestors(k)
+    inherited = []
+    for a in anc:
+        for f in h.levels[a]:
+            if f.name not in inherited and f.name != "origin":
+                inherited.append(f.name)
+    lvl: list[FSpec] = []
+    names_here: set[str] = set()
+    for _ in range(n):
+        if inherited and rng.random() < 0.3:
+            name = rng.choice(inherited)          # override of an inherited field
+        else:
+            name = rng.choice(NAMES)
+        if name in names_here:
+            continue
+        f = gen_field(rng, name)
+        if f.default is None and any(g.name == name and g.default is not None for a in anc for g in h.levels[a]):
+            # dataclasses would silently pick up a base's class attribute as the default of an
+            # override that declares none: give the override its own default, or do not override
+            if f.kind == "p":
+                f.default_val = _prop_value(rng, f.vclass)
+                f.default = _src(f.default_val)
+            elif f.kind == "c1" and f.vclass[0]:
+                f.default, f.default_val = "None", None
+            elif f.kind == "ct" and f.vclass[0] is None:
+                f.default, f.default_val = "()", ()
             else:
-                name = rng.choice(NAMES)
-            if name in names_here:
-                continue
-            f = gen_field(rng, name)
-            if f.default is None and any(g.name == name and g.default is not None for l0 in levels for g in l0):
-                # dataclasses would silently pick up the base's class attribute as the default of an
-                # override that declares none: give the override its own default, or do not override
-                if f.kind == "p":
-                    f.default_val = _prop_value(rng, f.vclass)
-                    f.default = _src(f.default_val)
-                elif f.kind == "c1" and f.vclass[0]:
-                    f.default, f.default_val = "None", None
-                elif f.kind == "ct" and f.vclass[0] is None:
-                    f.default, f.default_val = "()", ()
-                else:
-                    fresh = [n for n in NAMES if n not in used and n not in names_here]
-                    if not fresh:
-                        continue
-                    name = f.name = rng.choice(fresh)
-            names_here.add(name)
-            lvl.append(f)
-        if k > 0 and rng.random() < 0.08 and "origin" not in names_here:
-            # a user class may re-declare `origin` (it stays under skip_origin whatever its flags are)
-            lvl.insert(rng.randrange(len(lvl) + 1),
-                       FSpec("origin", "p", "Origin", "origin", compare=rng.random() < 0.5, init=True,
-                             kw_only=True, default="NO_ORIGIN", default_val=NO_ORIGIN))
-        for f in lvl:
-            if f.name not in used and f.name != "origin":
-                used.append(f.name)
-        levels.append(lvl)
-    _legalise(levels)
-    return Hier(next_uid(), levels, rng.random() < 0.4)
+                fresh = [n for n in NAMES if n not in inherited and n not in names_here]
+                if not fresh:
+                    continue
+                name = f.name = rng.choice(fresh)
+        names_here.add(name)
+        lvl.append(f)
+    if anc and rng.random() < 0.08 and "origin" not in names_here:
+        # a user class may re-declare `origin` (it stays under skip_origin whatever its flags are)
+        lvl.insert(rng.randrange(len(lvl) + 1),
+                   FSpec("origin", "p", "Origin", "origin", compare=rng.random() < 0.5, init=True,
+                         kw_only=True, default="NO_ORIGIN", default_val=NO_ORIGIN))
+    return lvl
+
+
+def _add(rng: random.Random, h: Hier, bases: list, n: int) -> int:
+    h.bases.append(bases)
+    h.levels.append([])
+    k = len(h.levels) - 1
+    h.levels[k] = _own_fields(rng, h, k, n)
+    return k
+
+
+def _nf(rng: random.Random, hi: int) -> int:
+    return rng.choice(list(range(hi + 1)))
+
+
+def _gen_family(rng: random.Random, shape: str) -> Hier:
+    h = Hier(next_uid(), [], rng.random() < 0.4, [[]], shape)
+    h.bases = []
+    if shape == "chain":
+        for k in range(rng.choice([1, 2, 2, 3, 3])):
+            _add(rng, h, [AST] if k == 0 else [k - 1], _nf(rng, 6))
+        if rng.random() < 0.25:
+            _add(rng, h, [len(h.levels) - 1], 0)                   # marker subclass
+    elif shape == "diamond":
+        # [P] <- A, B <- C(A, B) [<- D]
+        top = [AST]
+        if rng.random() < 0.4:
+            top = [_add(rng, h, [AST], _nf(rng, 3))]
+        a = _add(rng, h, list(top), rng.choice([1, 2, 3, 4]))
+        b = _add(rng, h, list(top), rng.choice([0, 1, 2, 3, 4]))
+        pair = [a, b] if rng.random() < 0.5 else [b, a]
+        if top == [AST] and rng.random() < 0.3:
+            pair.append(_add(rng, h, [AST], rng.choice([1, 2])))   # class C(A, B, E)
+        c = _add(rng, h, pair, 0 if rng.random() < 0.55 else rng.choice([1, 2, 3]))
+        if rng.random() < 0.5:
+            _add(rng, h, [c], 0 if rng.random() < 0.6 else rng.choice([1, 2]))     # marker / further subclass
+    else:  # mixin
+        a = _add(rng, h, [AST] if rng.random() < 0.7 else [rng.choice(MIXINS), AST], rng.choice([1, 2, 3, 4]))
+        m = rng.choice(MIXINS)
+        c = _add(rng, h, [m, a] if rng.random() < 0.5 else [a, m], 0 if rng.random() < 0.5 else rng.choice([1, 2, 3]))
+        if rng.random() < 0.5:
+            b = _add(rng, h, [AST], rng.choice([1, 2, 3]))
+            other = [x for x in MIXINS if x != m][0]
+            _add(rng, h, rng.choice([[c, b], [b, c], [c, other, b]]), 0 if rng.random() < 0.6 else 1)
+    _legalise(h)
+    return h
+
+
+def _trial(h: Hier) -> str | None:
+    """define a throw-away copy of the family (no instance is made, no accessor is called): the
+    generator's approximation of the dataclass rules is validated against CPython"""
+    t = h.copy(next_uid())
+    try:
+        t.open_module()
+        for k in range(len(t.levels)):
+            t.define(k)
+    except Exception as e:  # noqa
+        return f"{type(e).__name__}: {e}"
+    return None
+
+
+def _coherent(h: Hier) -> bool:
+    """Don't-care region (a quirk of `dataclasses` itself, not of pyoak's accessors): in a diamond with a
+    common parent P, `class A(P)`, `class B(P)` overriding P's field x, `class C(A, B)`, the field dict of C
+    holds **P's** Field x (A's resolved fields are written after B's) while attribute and annotation lookup
+    along the MRO find **B's** x; flags, default and type of such a field come from different declarations.
+    Families are generated only where both resolutions pick the same declaration of every name."""
+    for k in range(len(h.levels)):
+        for f in h.all_fields(k):
+            for c in h.mro(k):
+                own = BASE_LEVEL if c == AST else (h.levels[c] if isinstance(c, int) else [])
+                hit = [g for g in own if g.name == f.name]
+                if hit:
+                    if hit[0] is not f:
+                        return False
+                    break
+    return True
+
+
+RETRIES = [0, 0, 0]      # families generated, discarded (no MRO / rejected by the trial definition), discarded as incoherent diamonds
+
+
+def gen_hier(rng: random.Random, shapes=("chain", "chain", "diamond", "diamond", "mixin")) -> Hier:
+    for _ in range(20):
+        RETRIES[0] += 1
+        try:
+            h = _gen_family(rng, rng.choice(shapes))
+        except TypeError:            # the drawn base lists have no C3 linearisation (mix-in on both sides)
+            RETRIES[1] += 1
+            continue
+        if not _coherent(h):
+            RETRIES[2] += 1
+            continue
+        if _trial(h) is None:
+            return h
+        RETRIES[1] += 1
+    raise RuntimeError("the class generator cannot produce a family CPython/pyoak accept")
 
 
 # ------------------------------------------------------------------ instances
@@ -367,27 +548,20 @@ def gen_value(rng: random.Random, f: FSpec, falsy_bias: float):
 
 
 def make_instance(rng: random.Random, h: Hier, k: int):
-    """returns (instance, {field name: value}) for class k of the hierarchy; the value map is the
-    harness's own record of what it stored (constructor arguments and declared defaults)"""
-    fs = resolved(h.levels[: k + 1])
+    """returns (instance, {field name: stored value}) for class k of the family; the stored values are
+    read back with plain `getattr` (attribute access, none of the accessors under test)"""
+    fs = h.user_fields(k)
     falsy_bias = rng.choice([0.0, 0.5, 1.0])
     kwargs = {}
-    vals = {}
     for f in fs:
         if not f.init:
-            vals[f.name] = f.default_val
             continue
         if f.default is not None and rng.random() < 0.3:
-            vals[f.name] = f.default_val        # argument omitted
-            continue
-        v = gen_value(rng, f, falsy_bias)
-        kwargs[f.name] = v
-        vals[f.name] = v
-    if "origin" not in vals:
-        if rng.random() < 0.5:
-            kwargs["origin"] = CodeOrigin(_SRC, get_code_range(0, 1, 0, 3, 1, 3))
-            vals["origin"] = kwargs["origin"]
-        else:
-            vals["origin"] = NO_ORIGIN
+            continue                            # argument omitted
+        kwargs[f.name] = gen_value(rng, f, falsy_bias)
+    if not any(f.name == "origin" for f in fs) and rng.random() < 0.5:
+        kwargs["origin"] = CodeOrigin(_SRC, get_code_range(0, 1, 0, 3, 1, 3))
     inst = h.classes[k](**kwargs)
+    vals = {f.name: getattr(inst, f.name) for f in fs}
+    vals["origin"] = getattr(inst, "origin")
     return inst, vals
